@@ -238,15 +238,21 @@ func (st *strState) str(sb *strings.Builder, v *Value, repr bool) string {
 		if st.seen[v.Dict] && st.onShared != nil {
 			st.onShared()
 		}
-		if len(v.Dict.M) > 1 {
-			return "string form of a dict with several entries (order unspecified)"
-		}
 		st.onPath[v.Dict] = true
 		st.seen[v.Dict] = true
 		sb.WriteString("{")
-		for k, e := range v.Dict.M {
+		// entries in ascending key order (by code since fix 6269628: a dict's text is a function of its contents)
+		keys := make([]string, 0, len(v.Dict.M))
+		for k := range v.Dict.M {
+			keys = append(keys, k)
+		}
+		sort.Strings(keys)
+		for i, k := range keys {
+			if i > 0 {
+				sb.WriteString(", ")
+			}
 			sb.WriteString("'" + k + "': ")
-			if why := st.str(sb, e, true); why != "" {
+			if why := st.str(sb, v.Dict.M[k], true); why != "" {
 				return why
 			}
 		}
